@@ -187,6 +187,9 @@ type CoreEngine struct {
 	Ctl       *core.Control
 	Locs      map[string]*core.Location
 	Prov      *core.SimpleLocationProvider
+	// Known remembers every location ever opened (a restart reopens them all,
+	// also when an earlier restart was itself interrupted).
+	Known map[string]bool
 	// OnNewState lets a world attach hooks (cron) to each state it creates.
 	OnNewState func(ctx *core.Context, name string, st core.State)
 }
@@ -225,6 +228,13 @@ func (e *CoreEngine) Open(name string) (*core.Location, error) {
 	return loc, nil
 }
 
+func (e *CoreEngine) remember(name string) {
+	if e.Known == nil {
+		e.Known = map[string]bool{}
+	}
+	e.Known[name] = true
+}
+
 // Fresh builds a second, independent Location over the same storage without
 // registering it (for reload-equivalence checks).
 func (e *CoreEngine) Fresh(name string, store core.Storage) (*core.Location, error) {
@@ -244,6 +254,7 @@ func (e *CoreEngine) Fresh(name string, store core.Storage) (*core.Location, err
 }
 
 func (e *CoreEngine) Loc(name string) *core.Location {
+	e.remember(name)
 	if l, ok := e.Locs[name]; ok {
 		return l
 	}
@@ -261,8 +272,11 @@ func (e *CoreEngine) Loc(name string) *core.Location {
 // RestartAll drops every live object and rebuilds all known locations from
 // the durable content.
 func (e *CoreEngine) RestartAll(crash bool) error {
-	names := make([]string, 0, len(e.Locs))
 	for n := range e.Locs {
+		e.remember(n)
+	}
+	names := make([]string, 0, len(e.Known))
+	for n := range e.Known {
 		names = append(names, n)
 	}
 	sort.Strings(names)
